@@ -59,6 +59,12 @@ def contract_clause(h, c):
     return d.startswith('|result|') or 'precondition' in d.lower() and 'check_mem' in d
 
 
+def real_or_harness(h, c, info=None):
+    """checks located in the real crate's sources or in the harness file (not in std / kani library code)"""
+    f = kani.check_file(c)
+    return '/src/' in f and 'rustlib' not in f and '.rustup' not in f and 'kani-0.68' not in f or f.startswith('src/')
+
+
 MEM_OPS = ('ld_abs', 'ld_ind', 'ld_b_reg', 'ld_h_reg', 'ld_w_reg', 'ld_dw_reg', 'st_')
 
 
@@ -158,6 +164,17 @@ PROPS = {
         ],
         level_text='Contract of the CALL arm against a recording helper, for all ids, arguments and depths.',
         assumptions=['JIT and Cranelift call sites: units jit / cranelift'],
+    ),
+    'C17': dict(
+        title='Instruction encoding and decoding are inverse, and all encoders agree',
+        parts=[
+            Part('codec', lambda h: not h.startswith('bounded_'), real_or_harness,
+                 'real crate linked as a dependency: to_array == reference LE encoding, get_insn o to_array = id and to_array o get_insn = id on all 2^64 slots, to_vec == to_array, get_insn at any index, panic exactly outside the program, every builder constructor x symbolic fields == Insn::to_array of the named opcode, push appends the same bytes'),
+            Part('codec', lambda h: h.startswith('bounded_'), real_or_harness,
+                 'BOUNDED stand-in (3 slots): to_insn_vec loop'),
+        ],
+        level_text='Loop-free full-domain Kani harnesses over the real public API (complete proofs); to_insn_vec loop bounded at 3 slots and labelled bounded.',
+        assumptions=[],
     ),
     'C18': dict(
         title='Atomic add (sequential contract + single atomic RMW)',
